@@ -938,12 +938,17 @@ class SArr:
         self._write_check()
         if r.kind != self.kind:
             raise Unsupported('in-place op changing dtype')
-        self._store(r.elem, r.nan)
+        e, n = self._rhs_before_store(r)        # the new contents are computed from the OLD ones
+        self._store(e, n)
         return self
 
     def __iadd__(self, o): return self._inplace(self + o)
     def __isub__(self, o): return self._inplace(self - o)
     def __imul__(self, o): return self._inplace(self * o)
+    def __itruediv__(self, o): return self._inplace(self / o)
+    def __ipow__(self, o): return self._inplace(self ** o)
+    def __iand__(self, o): return self._inplace(self & o)
+    def __ior__(self, o): return self._inplace(self | o)
 
     def _write_check(self):
         c = C()
